@@ -165,6 +165,7 @@ class Interp:
         self.max_loop = 4096
         self.unspec_cast = False
         self.special_hooks = {}
+        self.accum_log = set()
         self.lib_overrides = {}
         self._cur = None
         from . import lib
@@ -424,7 +425,7 @@ class Interp:
             elif bf is None:
                 out.heap[bid] = bt
             else:
-                out.heap[bid] = [x if (x is y or same(x, y)) else A.ite(c, x, y) for x, y in zip(bt, bf)]
+                out.heap[bid] = [x if (x is y or same(x, y)) else self.ite_any(c, x, y) for x, y in zip(bt, bf)]
         # env
         for k in set(st_t.env) | set(st_f.env):
             if k in st_t.env and k in st_f.env:
@@ -457,6 +458,12 @@ class Interp:
         out.yields = (st_t.yields[:nb] + [(z_and(c, g), v) for g, v in st_t.yields[nb:]]
                       + [(z_and(z_not(c), g), v) for g, v in st_f.yields[nb:]])
         return out
+
+    def ite_any(self, c, x, y):
+        try:
+            return self.A.ite(c, x, y)
+        except Unsupported:
+            return Choice(c, x, y)
 
     def _partial(self, v, cond, name):
         if isinstance(v, Partial):
@@ -744,6 +751,10 @@ class Interp:
             self.assign(st, s.target, self.eval(st, s.value))
 
     def st_AugAssign(self, st, s):
+        if isinstance(s.target, ast.Subscript):
+            b = self.eval(st, s.target.value)
+            if isinstance(b, Arr):
+                self.accum_log.add((b.dtype, type(s.op).__name__))
         cur = self.eval(st, _as_load(s.target))
         rhs = self.eval(st, s.value)
         v = self.binop(st, s.op, cur, rhs)
